@@ -4,6 +4,7 @@
 -/
 import Driver.Util
 import Saltpack.Model.Armor
+import Saltpack.Model.Spec
 
 open Saltpack
 
@@ -83,8 +84,50 @@ def parseSigItem : List String → Option SigBlock
 def parseTail (s : String) : Option Tail :=
   if s = "E" then some .eof else if s = "R" then some (.err .decodeError) else none
 
+/-- options of the reference sender: `fn=<hex>;maj=<int|->;min=<int>;typ=<int|->;hx=<k>;rx=<k>;px=<k>;cs=<n.n.n|->` -/
+def parseOpts (s : String) : Option Spec.Opts := do
+  let mut o : Spec.Opts := {}
+  for kv in s.splitOn ";" do
+    match kv.splitOn "=" with
+    | ["fn", v] => o := { o with formatName := ← ofHex v }
+    | ["maj", v] =>
+      if v = "-" then o := { o with majorLabel := none }
+      else
+        let i ← v.toInt?
+        o := { o with majorLabel := some i }
+    | ["min", v] => o := { o with minor := ← v.toInt? }
+    | ["typ", v] =>
+      if v = "-" then o := { o with typ := none }
+      else
+        let i ← v.toInt?
+        o := { o with typ := some i }
+    | ["hx", v] => o := { o with headerExtras := Spec.extraVals (← v.toNat?) }
+    | ["rx", v] => o := { o with recvExtras := Spec.extraVals (← v.toNat?) }
+    | ["px", v] => o := { o with packetExtras := Spec.extraVals (← v.toNat?) }
+    | ["cs", v] => o := { o with chunkSizes := ← (if v = "-" then some [] else (v.splitOn ".").mapM String.toNat?) }
+    | _ => none
+  return o
+
 def handle (toks : List String) : Option String :=
   match toks with
+  | ["spec.enc", layout, opts, sender, recips, eph, pk, pt] =>
+    match layout.toNat?, parseOpts opts, mkSender sender, mkRecips recips, ofHex eph, ofHex pk, ofHex pt with
+    | some l, some o, some snd, some rs, some eph, some pk, some pt =>
+      some s!"ok {toHex (Spec.encode RealPrims l o snd rs eph pk pt)}"
+    | _, _, _, _, _, _, _ => none
+  | ["spec.att", layout, opts, signer, nonce, msg] =>
+    match layout.toNat?, parseOpts opts, ofHex signer, ofHex nonce, ofHex msg with
+    | some l, some o, some sg, some n, some m => some s!"ok {toHex (Spec.attached RealPrims l o sg n m)}"
+    | _, _, _, _, _ => none
+  | ["spec.det", layout, opts, signer, nonce, msg] =>
+    match layout.toNat?, parseOpts opts, ofHex signer, ofHex nonce, ofHex msg with
+    | some l, some o, some sg, some n, some m => some s!"ok {toHex (Spec.detached RealPrims l o sg n m)}"
+    | _, _, _, _, _ => none
+  | ["spec.sc", opts, sender, recips, eph, pk, pt] =>
+    match parseOpts opts, mkSender sender, mkSRecips recips, ofHex eph, ofHex pk, ofHex pt with
+    | some o, some snd, some rs, some eph, some pk, some pt =>
+      some s!"ok {toHex (Spec.signcrypt RealPrims o snd rs eph pk pt)}"
+    | _, _, _, _, _, _ => none
   | ["enc.openp", valid, secrets, ls, lp, ie, lsig, hdr, hf, items, tail] =>
     match mkValidator valid, hexList secrets, parseHdr parseEncHF hdr hf, parseItems parseEncItem items, parseTail tail with
     | some valid, some secrets, some hr, some its, some tl =>
